@@ -22,7 +22,19 @@ func init() {
 			check(t, func(rt *rapid.T) {
 				defer env.Release()
 				defer watchdogDisarm()
-				p, pc := gen.DrawProgram(rt, env, gen.DrawOpts{}, rejectCounter(rec))
+				var p *core.Program
+				var pc *gen.ProgCase
+				if rapid.IntRange(0, 7).Draw(rt, "splice") == 0 {
+					// constants and comments reaching the regexp-, format- and comment-analysing checkers
+					var ok bool
+					if p, pc, ok = drawSpliceProgram(rt, env); !ok {
+						rec.Reject()
+						rec.Count("rejected:splice")
+						rt.Skip("spliced text does not give a well-typed file")
+					}
+				} else {
+					p, pc = gen.DrawProgram(rt, env, gen.DrawOpts{}, rejectCounter(rec))
+				}
 				pc.Params = gen.DrawParams(rt)
 				checkC01(rt, rec, env, all, p, pc)
 			})
@@ -45,7 +57,18 @@ func init() {
 			env, all := sharedEnv(t)
 			check(t, func(rt *rapid.T) {
 				defer env.Release()
-				p, pc := gen.DrawProgram(rt, env, gen.DrawOpts{}, rejectCounter(rec))
+				var p *core.Program
+				var pc *gen.ProgCase
+				if rapid.IntRange(0, 7).Draw(rt, "splice") == 0 {
+					var ok bool
+					if p, pc, ok = drawSpliceProgram(rt, env); !ok {
+						rec.Reject()
+						rec.Count("rejected:splice")
+						rt.Skip("spliced text does not give a well-typed file")
+					}
+				} else {
+					p, pc = gen.DrawProgram(rt, env, gen.DrawOpts{}, rejectCounter(rec))
+				}
 				checkC07(rt, rec, all, p, pc)
 			})
 		},
